@@ -240,20 +240,41 @@ def _curve(rng, mode: str, event: bool):
     from srctools import choreo
     ramp = _samples(rng, mode, curve_types=(mode == 'text'))
     left, right = _edge(rng, mode), _edge(rng, mode)
-    if event and not ramp:
-        # RULE: the text writer only emits event_ramp when it has samples.
-        left = right = choreo.CurveEdge(False)
     return choreo.Curve(ramp, left, right)
 
 
-def _tags(rng, mode: str, cls, strs, timing: bool = False, steps: int = 255) -> list:
+_ABS_WIDE: Optional[bool] = None
+
+
+def abs_tags_wide() -> bool:
+    """Can an AbsoluteTag hold its documented range [0, 16)?  (Capability probe; the abs-tag engine reports a no.)"""
+    global _ABS_WIDE
+    if _ABS_WIDE is None:
+        from srctools import choreo
+        try:
+            choreo.AbsoluteTag('probe', 2.5)
+            _ABS_WIDE = True
+        except ValueError:
+            _ABS_WIDE = False
+    return _ABS_WIDE
+
+
+def abs_value(rng, mode: str, wide: bool) -> float:
+    """Absolute tag value: k/4096 as a 16-bit field stores it (any float in text); > 1.0 only when `wide`."""
+    if wide and rng.random() < 0.6:
+        return rng.uniform(1.0, 15.99) if mode == 'text' else rng.randrange(4097, 65536) / 4096.0
+    return _q(rng, mode, 4096)
+
+
+def _tags(rng, mode: str, cls, strs, timing: bool = False, absolute: bool = False) -> list:
     out = []
     for _ in range(rng.choice((0, 0, 1, 2, 3))):
         if timing:
             out.append(cls(strs(), _q(rng, mode), (rng.random() < 0.5) if mode == 'text' else False))
+        elif absolute:
+            out.append(cls(strs(), abs_value(rng, mode, abs_tags_wide())))
         else:
-            # AbsoluteTag inherits Tag's 0..1 validator in this tree, so k <= steps.
-            out.append(cls(strs(), _q(rng, mode, steps)))
+            out.append(cls(strs(), _q(rng, mode)))
     return out
 
 
@@ -291,8 +312,8 @@ def gen_event(rng, mode: str, strs, flex: bool):
         dist_to_targ=dist,
         relative_tags=_tags(rng, mode, choreo.Tag, strs),
         timing_tags=_tags(rng, mode, choreo.TimingTag, strs, timing=True),
-        absolute_playback_tags=_tags(rng, mode, choreo.AbsoluteTag, strs, steps=4096),
-        absolute_shifted_tags=_tags(rng, mode, choreo.AbsoluteTag, strs, steps=4096),
+        absolute_playback_tags=_tags(rng, mode, choreo.AbsoluteTag, strs, absolute=True),
+        absolute_shifted_tags=_tags(rng, mode, choreo.AbsoluteTag, strs, absolute=True),
         flex_anim_tracks=_flex_tracks(rng, mode, strs) if flex else [],
     )
     if mode == 'text':
@@ -462,11 +483,7 @@ def gen_material(rng):
 
     def s(n: int = 10, empty: float = 0.1) -> str:
         # RULE: VMT has no escape mechanism, so no double quote; single-line strings only.
-        out = rand_str(rng, n, escapes=hostile, struct_chars=hostile, forbid='"\r\n', empty=empty)
-        # RULE: a leading comment introducer cannot be told from a comment in a bare token.
-        while out.startswith(('//', '/*')):
-            out = out[1:]
-        return out
+        return rand_str(rng, n, escapes=hostile, struct_chars=hostile, forbid='"\r\n', empty=empty)
 
     def name() -> str:
         n = s(10, 0.0)
@@ -605,7 +622,8 @@ def snap_attr(a) -> Any:
 
 def snap_particle(p) -> Any:
     def opts(d) -> list:
-        return [[k.casefold(), snap_attr(v)] for k, v in d.items()]
+        # The reader mirrors the element's own name into options['name']; it is derived data, not compared.
+        return [[k.casefold(), snap_attr(v)] for k, v in d.items() if k.casefold() != 'name']
 
     def oplist(lst) -> list:
         return [{'name': o.name, 'function': o.function, 'options': opts(o.options)} for o in lst]
